@@ -1,6 +1,6 @@
 (* Dispatch.v — single entry point of the extracted model. *)
 From Coq Require Import ZArith List.
-From PV Require Import extract.Cases at4.Flat4 at5.Flat5 extract.Doms spec.FlatSpec extract.RxCases extract.ApiCases.
+From PV Require Import extract.Cases at4.Flat4 at5.Flat5 extract.Doms spec.FlatSpec extract.RxCases extract.ApiCases extract.ClientCases.
 Import ListNotations.
 Open Scope Z_scope.
 
@@ -23,5 +23,6 @@ Definition run_case (l : list Z) : list Z :=
   | 41 :: args => run_rx args
   | 50 :: args => run_api_call args
   | 51 :: args => run_api_getters args
+  | 60 :: args => run_client args
   | _ => [-1]
   end.
